@@ -345,11 +345,13 @@ def chunk_strings(chunk, acc):
                                 datetime.date(y, mi + 1, d)
                             except ValueError:
                                 continue
-                            s = f"Cobalt Strike {M}.{m}" + (f".{p}" if p is not None else "") + f" ({mon} {d:02d}, {y})"
-                            acc.transitions += 1
-                            v = call(version.BeaconVersion, s)
-                            if isinstance(v, str) and v.startswith("EXC") or not version_consistent(v, s):
-                                acc.fail("C18/version/string-parse", {"kind": "string", "text": s}, str(parse_ref(s)), repr(v))
+                            # (zero-padded day, and for single-digit days the unpadded spelling as well)
+                            for day in ((f"{d:02d}", f"{d}") if d < 10 else (f"{d:02d}",)):
+                                s = f"Cobalt Strike {M}.{m}" + (f".{p}" if p is not None else "") + f" ({mon} {day}, {y})"
+                                acc.transitions += 1
+                                v = call(version.BeaconVersion, s)
+                                if isinstance(v, str) and v.startswith("EXC") or not version_consistent(v, s):
+                                    acc.fail("C18/version/string-parse", {"kind": "string", "text": s}, str(parse_ref(s)), repr(v))
         acc.states += 1
     n = 6 * 13 * 4 * 12 * 7 * 3
     acc.bulk(acc.transitions, acc.transitions, outcomes=["parsed"])
